@@ -164,9 +164,15 @@ class PoolGen:
         op = {"op": "AddNode", "conn": k, "node": node, "altnode": self.r.choice(others)}
         self.emit(self.signed(op, acct, alter))
 
-    def withdraw(self, acct, alter=None):
+    def withdraw(self, acct, alter=None, during=False):
         k = self.conn_for(self.r.choice(NODES))
-        self.emit(self.signed({"op": "Withdraw", "conn": k}, acct, alter))
+        op = {"op": "Withdraw", "conn": k}
+        if during:
+            # the wallet (and another one) keep earning while the settlement is in progress
+            op["during"] = [({"acct": self.r.choice([acct, acct, self.r.choice(ACCTS)]), "amt": self.r.choice([5, 50, 500])}
+                             if self.r.random() < 0.5 else {"id": self.r.choice(NODES), "amt": self.r.choice([5, 50, -20])})
+                            for _ in range(self.r.choice([1, 2, 3]))]
+        self.emit(self.signed(op, acct, alter))
 
     def sleep(self, d=None):
         if self.race:
@@ -385,7 +391,7 @@ class PoolGen:
         elif kind == "addnode":
             self.addnode(r.choice(self.accts), r.choice(NODES))
         elif kind == "withdraw":
-            self.withdraw(r.choice(self.accts))
+            self.withdraw(r.choice(self.accts), during=(not self.race and r.random() < 0.35))
         elif kind == "deposit":
             self.emit({"op": "Deposit", "acct": r.choice(ACCTS), "amt": r.choice([0, 10, 100, 1000])})
         elif kind == "forged":
